@@ -219,6 +219,7 @@ static std::unordered_map<void*, OnceRec> g_once;
 static int g_next_objid = 1;
 static int64_t g_now = 0;
 static uint64_t g_steps = 0;
+static uint64_t g_last_progress_step = 0;
 static uint64_t g_event_seq = 0;
 static uint64_t g_hash = 1469598103934665603ULL;
 static uint64_t g_sig = 1469598103934665603ULL;
@@ -544,8 +545,10 @@ static Th* pick_next(Th* me) {
         }
         ++g_steps;
         g_now += g_tick_ns;
-        if (g_steps > g_cfg.step_budget) {
-            fatal("livelock", std::string("sched.livelock/") + live_names_signature(), "step budget exhausted: " + describe_threads());
+        if (g_steps - g_last_progress_step > g_cfg.stall_budget || g_steps > g_cfg.step_budget) {
+            fatal("livelock", std::string("sched.livelock/") + live_names_signature(),
+                  std::string{g_steps > g_cfg.step_budget ? "step budget exhausted: " : "no progress (no byte moved, no element delivered, no thread started or finished) for "} +
+                      std::to_string(g_steps - g_last_progress_step) + " scheduling steps: " + describe_threads());
         }
         if (cand.size() > g_max_enabled) { g_max_enabled = cand.size(); }
         uint32_t idx = 0;
@@ -594,6 +597,8 @@ static inline void pre_point(Th* me) {
     me->st = RUN;
     schedule(me);
 }
+
+void progress() { g_last_progress_step = g_steps; }
 
 void sched_point(const char* name) {
     if (!sim_thread()) { return; }
@@ -651,6 +656,7 @@ void begin_run(const RunConfig& cfg) {
     g_next_objid = 1;
     g_res.simtime_ns += g_now;
     g_now = 0;
+    g_last_progress_step = g_steps;
     g_res.subruns++;
     auto* mainth = new Th;
     mainth->id = 0;
@@ -706,6 +712,7 @@ static void* trampoline(void* p) {
     lockG();
     me->ret = ret;
     me->st = DONE;
+    g_last_progress_step = g_steps;
     log_op(2, nullptr);
     schedule_exit(me);
     unlockG();
@@ -737,6 +744,7 @@ static int sim_pthread_create(pthread_t* th, const pthread_attr_t* attr, void* (
         return rc;
     }
     *th = t->real;
+    g_last_progress_step = g_steps;
     log_op(1, nullptr);
     me->st = RUN;
     schedule(me);
